@@ -96,10 +96,15 @@ def costsDiff (p : CostsParsed) (c : Result) : Option String :=
       if myear.map (·.1) ≠ p.yearly.map (fun x => x.year.getD 0) then
         some s!"years model={myear.map (·.1)} impl={p.yearly.map (fun x => x.year.getD 0)}"
       else
+        -- a year's day may differ from the model's only among days whose totals tie within 1e-9
+        -- (the implementation compares 28-digit decimals, the model exact rationals): `nearTie`
         let bady := (myear.zip p.yearly).find? (fun (m, x) =>
           match m.2 with
           | none => true
-          | some r => !(r.day == x.day && close r.total x.total && closeList (r.figs.map (·.getD (-1))) x.figs))
+          | some r =>
+            let r' := if r.day == x.day then r else
+              (if yearOfJd x.day == m.1 && c.days.contains x.day && close (c.tab.total x.day) r.total then c.rowOf x.day else r)
+            !(r'.day == x.day && close r'.total x.total && closeList (r'.figs.map (·.getD (-1))) x.figs))
         match bady with
         | some (m, x) => some s!"yearly {m.1}: model day={(m.2.map (·.day)).getD 0} impl day={x.day} total={ratToString x.total}"
         | none =>
@@ -199,6 +204,10 @@ def runCosts (c : Case) : Res :=
       let diff := match calcTotalCosts yearOfJd p.rows id id with
         | .error e => some s!"model panics ({reprStr e}), implementation completed"
         | .ok m => costsDiff p m
+      let near := match calcTotalCosts yearOfJd p.rows id id with
+        | .ok m => ((m.yearlyRows yearOfJd).zip p.yearly).any (fun (a, x) => (a.2.map (·.day)) != some x.day)
+        | .error _ => false
+      let tags := if near && diff.isNone then "near=1" :: tags else tags
       match orc, diff with
       | some e, d => { verdict := "ORACLE", tags := "of=C17" :: tags,
                        msg := e ++ (match d with | some x => " || model: " ++ x | none => "") }
